@@ -364,8 +364,9 @@ def gen_modules(r, n, profile, opts_fn, prefix="m", tsx=False):
 
 def std_opts(r):
     o = gen.opts_random(r)
-    if r.chance(0.25):
-        o["customElementPatterns"] = ["^x-", "custom"]
+    if r.chance(0.3):
+        # patterns that match lower-case custom elements, capitalised names (bound and unbound), underscore names and member properties
+        o["customElementPatterns"] = r.pick([["^x-", "custom"], ["^Unk", "^my-"], ["^Comp$", "Item$", "^_x-"], ["^[A-Z]", "^x-"], ["."], ["^NS$", "^Foo$", "div"]])
     if r.chance(0.08):
         o["pragma"] = "h"
     return o
@@ -639,7 +640,7 @@ PROPS["C13"] = {
     "theorems": ["C13_flags_allowed", "C13_dynamic_keys_full", "C13_need_patch", "C13_spread_sets_dynamic_keys",
                  "C13_transformOn_sets_dynamic_keys", "C13_plain_monotone", "C13_plain_cover", "C13_plain_cover_component",
                  "C13_props_bit", "C13_class_style_bits", "C13_slot_flag_range", "C13_stack_invariant_push",
-                 "C13_stack_invariant_fill", "C13_fill_marks_all", "attrStep_mono", "trAttrs_mono", "trAttrs_append", "C13_cover_whole_element", "C13_cover_whole_element_flag"],
+                 "C13_stack_invariant_fill", "C13_fill_marks_all", "attrStep_mono", "trAttrs_mono", "trAttrs_append", "C13_cover_whole_element", "C13_cover_whole_element_flag", "C13_computed_key_not_constant"],
     "cases": c13_cases,
     "explanation": "oracle: the clauses of the statement evaluated on every vnode call of the real output (flag is a union of element-level bits; without FULL_PROPS every non-constant prop except key/ref is covered by CLASS/STYLE on elements or by PROPS + the dynamic-prop list; spread/merged/computed-key props imply FULL_PROPS or no flag; the dynamic-prop list names present props only; ref/directive never with HYDRATE_EVENTS alone; `_` is 1 or 2, and 2 when a direct child - of that slot or of one reached by direct JSX nesting - is an identifier bound in the file; no hint without optimize)",
 }
@@ -790,7 +791,7 @@ def c15_cases(tier, seed):
 PROPS["C15"] = {
     "theorems": ["C15_default_createVNode", "C15_comment_over_option", "C15_option_pragma", "C15_fragment_callee", "C15_later_comment_wins",
                  "C15_unannotated_position_keeps", "C15_scan_no_tag", "C15_scan_other_jsx_tags", "C15_scan_bare", "C15_scan_name",
-                 "C15_scan_result_is_one_word"],
+                 "C15_scan_result_is_one_word", "C15_element_callee", "visit_pragma", "visitKids_pragma"],
     "cases": c15_cases,
     "explanation": "oracle: the effective pragma is computed from the comments SWC attached before the module / each top-level item by the specification scanner (Text.pragmaOfComment) and the option; the real output must contain exactly one call of that identifier per lowered element/fragment and must not import createVNode; without a pragma every lowered element/fragment is a call of the createVNode imported once from one generated 'vue' import",
 }
@@ -814,7 +815,7 @@ PROPS["C20"] = {
     "nontrivial": lambda c, r: "defineComponent(" in c["src"] or "defineComponent (" in c["src"],
     "theorems": ["C20_off_untouched", "C20_other_calls_untouched", "C20_gate_iff", "C20_member_callee_never", "C20_import_other_module",
                  "C20_explicit_option_kept", "C20_spread_arguments_untouched", "C20_options_expression_spread_last",
-                 "insertBeforeFirstSpread_eq", "C20_user_wins_semantic"],
+                 "insertBeforeFirstSpread_eq", "C20_user_wins_semantic", "visit_inert", "visit_dc_none", "visitKids_dc_none"],
     "cases": c20_cases,
     "explanation": "oracle: every user-written call of the input is aligned with the same call of the real output; a changed call must be a call of the binding imported by name from 'vue' with resolveType on, must not have a spread among its first two arguments, must keep every user-written option entry in order, and every injected props/emits/name entry must sit BEFORE any user entry or spread that can provide the same key (so that what the user wrote is what Vue receives); name only for `const x = defineComponent(...)` with the variable's name",
 }
@@ -983,6 +984,16 @@ def malformed_stream(tier, r):
         for use in ["(props: T) => {}", "(props: A) => {}", "(props: I) => {}", "(props: P) => {}", "(props: { x: T }) => {}", "(_, ctx: SetupContext<T>) => {}", "(props: K) => {}"]:
             src = "import { defineComponent } from 'vue';\nimport type { SetupContext } from 'vue';\n%s\ndefineComponent(%s);\n" % (cyc, use)
             out.append({"src": src, "tsx": True, "opts": {"resolveType": True}})
+    # finite alias / interface-extends / wrapper chains around the resolver's nesting limit (every length from 58 to 70)
+    for L in list(range(58, 71)) + [10, 100, 200]:
+        chain = "type Z0 = { a: string; 'b-c'?: number };\n" + "\n".join("type Z%d = Z%d;" % (k + 1, k) for k in range(L))
+        ichain = "interface Y0 { (e: 'ev'): void }\n" + "\n".join("interface Y%d extends Y%d {}" % (k + 1, k) for k in range(L))
+        nest = "string"
+        for k in range(L):
+            nest = "NonNullable<%s>" % nest if k % 2 else "(%s | null)" % nest
+        for use in ["(props: Z%d) => {}" % L, "(props: { m: Z%d['a'] }) => {}" % L, "(props: { n: %s }) => {}" % nest]:
+            out.append({"src": "import { defineComponent, type SetupContext } from 'vue';\n%s\ndefineComponent(%s);\n" % (chain, use), "tsx": True, "opts": {"resolveType": True}})
+        out.append({"src": "import { defineComponent, type SetupContext } from 'vue';\n%s\ndefineComponent((_, ctx: SetupContext<Y%d>) => {});\n" % (ichain, L), "tsx": True, "opts": {"resolveType": True}})
     # every cyclic declaration of T x every position a resolver recurses through (whole props type, member type, emits)
     for cyc in CYCLIC_T:
         for w in TYPE_POSITIONS:
@@ -1042,7 +1053,7 @@ def c08_cases(tier, seed):
     run += mods
     for c in run:
         c["twice"] = True
-    return [], run, {"rule": "fixtures + the malformed-usage stream (directive values of every attribute-value kind, holes/spreads/empty arrays, 13 self- or mutually-referential alias/interface declarations x 7 uses, 24 cyclic declarations x 21 type positions (indexed object/key, Pick/Omit keys and object, utility wrappers, unions, intersections, arrays, tuples) x 5 uses (whole props type, member type, SetupContext argument, event parameter of a function type and of a call signature), nesting depth up to 200, ...) + %d generated modules; every case is run TWICE in one process (fresh SWC globals) and once more in a fresh process with the cases in reverse order; outputs, diagnostics and outcomes must be byte-identical; a panic or a process abort (stack overflow) is a violation" % len(mods),
+    return [], run, {"rule": "fixtures + the malformed-usage stream (directive values of every attribute-value kind, holes/spreads/empty arrays, 13 self- or mutually-referential alias/interface declarations x 7 uses, 24 cyclic declarations x 21 type positions (indexed object/key, Pick/Omit keys and object, utility wrappers, unions, intersections, arrays, tuples) x 5 uses (whole props type, member type, SetupContext argument, event parameter of a function type and of a call signature), nesting depth up to 200, finite alias / extends / wrapper chains of every length 58..70 (around the resolver's nesting limit) and 10, 100, 200, ...) + %d generated modules; every case is run TWICE in one process (fresh SWC globals) and once more in a fresh process with the cases in reverse order; outputs, diagnostics and outcomes must be byte-identical; a panic or a process abort (stack overflow) is a violation" % len(mods),
                      "histogram": dict(hist.most_common(30))}
 
 
